@@ -89,6 +89,11 @@ def main(args):
             # every other pair of streams is run "quiet": nothing of the harness orders the background jobs and the client
             # stream before the very end, so that the race detector sees the server's own synchronisation and nothing else
             streams.append({"ops": c["ops"], "workspace": i % 2 == 0, "seed": run.seed * 100003 + i, "quiet": (i // 2) % 2 == 1})
+        # the same streams once more on a workspace whose scans are long (an included file of 60 000 directives): windows
+        # between two lock sections of ONE function, which no yield point marks, become wide enough to be hit (LoaderRace.tla,
+        # mechanism "atomic" vs "unguarded")
+        for i, c in enumerate(js[:(8 if not thorough else 80)]):
+            streams.append({"ops": c["ops"], "workspace": True, "seed": run.seed * 100003 + 7919 + i, "quiet": False, "heavy": 60000})
     if os.environ.get("C14_ONLY") == "gated":
         streams = []
     if os.environ.get("C14_ONLY") == "stress":
@@ -124,7 +129,7 @@ def main(args):
         sres = run.harness("stress", streams, race=True, timeout=3400, env_extra={"GORACE": "exitcode=0 history_size=4"}, args=("-par", "4"))
         err = run.last_harness_stderr
         for s, res in zip(streams, sres):
-            run.count(vf.digest([s["ops"], s["workspace"], s["seed"], s.get("quiet", False)]), True)
+            run.count(vf.digest([s["ops"], s["workspace"], s["seed"], s.get("quiet", False), s.get("heavy", 0)]), True)
             if "panic" in res:
                 run.diverge("panic", "server panicked: " + res["panic"][:300], s, None)
             elif res.get("stuck"):
